@@ -8,6 +8,9 @@ Streams
             the root ("lazy-root"), hand-made explicit entries with lazily loaded directory objects
             below explicit parents ("mixed"); delete on/off; copy/hardlink/symlink; both store
             classes; exec bits; missing file objects / directory objects / hash-less entries.
+  dangling  prior workspaces holding dangling symbolic links (a symlink checkout whose cache objects were
+            collected): outside the target, at a target file path, at a target directory path, inside a directory
+            that must disappear; all link types, delete on/off, all explicit-directory target forms.
   implicit  targets made of file entries only (and lazy directories below parents without an
             entry): the directories of the target are implicit trie nodes. delete=True only.
   branch    the per-change branch of _compare alone, exhaustively: translation validation of the GENERATED
@@ -26,7 +29,8 @@ GEN = ["types", "idiff", "idxcompare"]
 RULE = (
     "names a/b/c at depth 1-3 so that prior and target collide; the prior workspace is either "
     "independent or derived from the target by file<->directory replacements at depth 1-3, nested "
-    "removals, content and exec-bit edits, empty directories; target forms build / lazy-root / mixed "
+    "removals, content and exec-bit edits, empty directories, dangling symlinks (25% of the main stream + a "
+    "dedicated stream); target forms build / lazy-root / mixed "
     "(explicit entries + lazy directory objects) / implicit; x delete on/off x copy/hardlink/symlink x "
     "local/base store x unavailable file objects, directory objects, hash-less entries. A scripted "
     "corpus (kind change in both directions at each depth, nested removal, exec-only change) runs "
@@ -34,7 +38,10 @@ RULE = (
 )
 ASSUMPTIONS = [
     "apply(update_meta=False, state=None) as dvc calls it; one ObjectStorage 'cache' at the root key; relink=False",
-    "the old index is md5(build(workspace)); prior workspaces consist of plain files (own inode) and directories",
+    "the old index is the index of the workspace as dvc builds it: build_entries(compute_hash=True) added to a "
+    "DataIndex (broken links are entries without meta/hash) or, for workspaces without broken links, also "
+    "md5(build(workspace)) (md5() drops broken entries); prior workspaces consist of plain files (own inode), "
+    "directories and dangling symbolic links",
     "the cache is fresh per case: cache objects are 0o444 / not executable before apply",
     "hashes are modelled by the content they name (no md5 collision among the <= 6 contents in play)",
     "targets are well formed: every strict prefix of a key is a directory entry or an implicit node; a lazy "
@@ -93,7 +100,37 @@ def dirs_of(tree):
 
 
 def files_of(tree):
-    return {k: v for k, v in tree.items() if v is not None}
+    return {k: v for k, v in tree.items() if isinstance(v, (tuple, list))}
+
+
+def add_dangling(rng, prior, target):
+    """plant 1-3 dangling symlinks ("X") in a prior workspace: outside the target, at a target file path, at a
+    target directory path, inside a directory the target does not have"""
+    t = dict(prior)
+    tfiles, tdirs = sorted(files_of(target)), sorted(dirs_of(target))
+    pdirs = sorted(d for d in dirs_of(prior) if d not in dirs_of(target))
+    for _ in range(rng.randint(1, 3)):
+        r = rng.random()
+        if r < 0.3 and tfiles:
+            k = rng.choice(tfiles)
+        elif r < 0.45 and tdirs:
+            k = rng.choice(tdirs)
+        elif r < 0.7 and pdirs:
+            k = rng.choice(pdirs) + "/" + rng.choice(NAMES + "x")
+        else:
+            k = "/".join(rng.choice(NAMES + "x") for _ in range(rng.randint(1, 3)))
+        parts = k.split("/")
+        if len(parts) > 4:
+            continue
+        # the link replaces whatever is at or below its path; its parents must be directories
+        if any("/".join(parts[:i]) in t and t["/".join(parts[:i])] is not None for i in range(1, len(parts))):
+            continue
+        for x in [x for x in t if x == k or x.startswith(k + "/")]:
+            del t[x]
+        for i in range(1, len(parts)):
+            t.pop("/".join(parts[:i]), None)  # an empty-directory marker that gained a child
+        t[k] = "X"
+    return t
 
 
 def mutate(rng, tree):
@@ -136,7 +173,7 @@ def mutate(rng, tree):
 
 
 def consistent(tree):
-    fs = files_of(tree)
+    fs = {k for k, v in tree.items() if v is not None}
     for k in tree:
         parts = k.split("/")
         if any("/".join(parts[:i]) in fs for i in range(1, len(parts))):
@@ -202,6 +239,9 @@ def mk_ws(root, tree):
             os.makedirs(p, exist_ok=True)
             continue
         os.makedirs(os.path.dirname(p), exist_ok=True)
+        if v == "X":
+            os.symlink("/nonexistent-verif-c09/gone", p)
+            continue
         with open(p, "wb") as f:
             f.write(v[0].encode())
         os.chmod(p, 0o755 if v[1] else 0o644)
@@ -307,8 +347,10 @@ def build_target(case, root, odb):
 def run_real(ctx, case):
     from dvc_objects.fs.local import localfs
 
+    from dvc_data.index import DataIndex, FileStorage
     from dvc_data.index import build as ibuild
     from dvc_data.index import md5 as imd5
+    from dvc_data.index.build import build_entries
     from dvc_data.index.checkout import apply, compare
 
     root = ctx.fresh("c09")
@@ -338,10 +380,22 @@ def run_real(ctx, case):
     if case.get("collect_onerror"):
         new.onerror = lambda entry, exc: cerrs.append(entry.key)
     res = {"exc": None}
-    old = imd5(ibuild(wsdir, localfs))
+    def ws_index():
+        # the index of what is in the workspace now: build()+md5(), or - as dvc does - build_entries with
+        # hashes added to an index (the only form that keeps broken links: md5() drops them)
+        if case.get("old_index", "entries") == "md5build":
+            return imd5(ibuild(wsdir, localfs))
+        ix = DataIndex()
+        ix.storage_map.add_data(FileStorage(key=(), fs=localfs, path=wsdir))
+        for entry in build_entries(wsdir, localfs, compute_hash=True):
+            ix.add(entry)
+        return ix
+
+    old = ws_index()
     d1 = compare(old, new, delete=case["delete"])
     res["plan1"] = plan_keys(d1)
     res["order"] = [e.key for e in d1.files_chmod]
+    res["order_dc"] = [e.key for e in d1.dirs_create]
     errs = []
 
     def onerror(src, dest, exc):
@@ -358,7 +412,7 @@ def run_real(ctx, case):
     res["errs"] = sorted(errs)
     res["walk"], res["litter"] = walk_ws(wsdir)
     try:
-        d2 = compare(imd5(ibuild(wsdir, localfs)), new, delete=case["delete"])
+        d2 = compare(ws_index(), new, delete=case["delete"])
         res["plan2"] = plan_keys(d2)
     except Exception as exc:  # noqa: BLE001
         res["plan2"] = None
@@ -420,7 +474,9 @@ def case_term(case, res):
     ws_items = []
     for rel, v in case["prior"].items():
         k = key_of(rel)
-        if v is not None:
+        if v == "X":
+            ws_items.append(cpair(ckey(k), "Dangling"))
+        elif v is not None:
             ws_items.append(cpair(ckey(k), f"(File {cbytes(v[0])} {cbool(v[1])} false)"))
     for d in sorted(dirs_of(case["prior"])):  # includes the empty-directory markers
         ws_items.append(cpair(ckey(key_of(d)), "Dir"))
@@ -434,10 +490,11 @@ def case_term(case, res):
             tg.append(cpair(ckey(k), f"(TDir (Some {cbytes(te[1])}) true)"))
     trees = [cpair(cbytes(tid), clist([cpair(ckey(key_of(rel)), cbytes(c)) for rel, c in t.items()]))
              for tid, t in res["trees"].items()]
-    return ("{| c_link := %s; c_delete := %s; c_avail := %s; c_trees := %s; c_order := %s; c_ws := %s; "
+    return ("{| c_link := %s; c_delete := %s; c_avail := %s; c_trees := %s; c_order := %s; c_order_dc := %s; c_ws := %s; "
             "c_target := %s |}" % (LINKS[case["link"]], cbool(case["delete"]),
                                    clist([cbytes(c) for c in res["avail"]]), clist(trees),
-                                   clist([ckey(k) for k in res["order"]]), clist(ws_items), clist(tg)))
+                                   clist([ckey(k) for k in res["order"]]), clist([ckey(k) for k in res["order_dc"]]),
+                                   clist(ws_items), clist(tg)))
 
 
 def expected_val(res):
@@ -492,6 +549,14 @@ def oracle(case, res):
             return [("C09:not-converged:link-no-parent",
                      f"every source is available, link type {case['link']}: entries {blocked} below implicit "
                      f"directories were not created (FileNotFoundError passed to onerror); apply raised: {res['raised']}")]
+    # -- root cause E: a dangling link at the path of a directory entry without hash is classified ADD, is not
+    #    deleted, and os.makedirs raises out of apply
+    if res["raised"] in ("FileExistsError", "NotADirectoryError"):
+        at = [key_of(rel) for rel, v in case["prior"].items() if v == "X" and key_of(rel) in dirs]
+        if at:
+            return [("C09:not-converged:dangling-at-hashless-dir",
+                     f"dangling link(s) {at} sit at directory entries of the target; apply raised {res['raised']} "
+                     f"out of _create_dirs, the workspace is {sorted(walk.items())[:6]}...")]
     # -- unavailable sources are reported (any delete mode)
     for k in sorted(failed):
         if k not in reported:
@@ -551,7 +616,7 @@ def oracle(case, res):
         nodes = set(files) | dirs | implicit
         prior_nodes = {}
         for rel, v in case["prior"].items():
-            prior_nodes[key_of(rel)] = "D" if v is None else (v[0], v[1])
+            prior_nodes[key_of(rel)] = "D" if v is None else ("X" if v == "X" else (v[0], v[1]))
         for d in dirs_of(case["prior"]):
             prior_nodes[key_of(d)] = "D"
         for k, v in sorted(prior_nodes.items()):
@@ -641,7 +706,8 @@ def gen_case(ctx, form=None):
         prior = {k: v for k, v in prior.items() if consistent({k: v, **{f: x for f, x in prior.items() if f != k}})}
         if not consistent(prior):
             prior = {}
-    form = form or rng.choice(["build", "build", "lazy-root", "mixed", "mixed"])
+    dangling = form == "dangling"
+    form = rng.choice(["build", "build", "lazy-root", "mixed", "mixed"]) if form in (None, "dangling") else form
     case = {"prior": prior, "target_tree": target, "form": form,
             "delete": True if form == "implicit" else rng.random() < 0.7,
             "link": rng.choice(["copy", "hardlink", "symlink"]), "cls": rng.choice(["local", "base"])}
@@ -649,6 +715,10 @@ def gen_case(ctx, form=None):
         target = {k: v for k, v in target.items() if v is not None}  # listings have no empty directories
         case["target_tree"] = target
     finish_case(ctx, case)
+    if dangling or rng.random() < 0.25:
+        case["prior"] = add_dangling(rng, case["prior"], target)
+    if not any(v == "X" for v in case["prior"].values()) and rng.random() < 0.5:
+        case["old_index"] = "md5build"
     if rng.random() < 0.25:
         cs = sorted({v[0] for v in files_of(target).values()})
         if cs:
@@ -692,6 +762,13 @@ def judge(ctx, case, items, stream):
         ctx.count("dangling-symlinks")
     if p1["files_chmod"]:
         ctx.count("chmod-planned")
+    ctx.count("old-index:" + case.get("old_index", "entries"))
+    for rel, v in case["prior"].items():
+        if v == "X":
+            k = key_of(rel)
+            where = ("at-target-file" if k in files else "at-target-dir" if k in dirs | implicit else
+                     "below-target-file" if any(k[:i] in files for i in range(1, len(k))) else "outside-target")
+            ctx.count("prior-dangling:" + where)
     for sig, what in oracle(case, res):
         ctx.oracle_fail(sig, what, case)
     if res["plan2"] is not None:
@@ -770,6 +847,9 @@ def run(ctx):
     n_impl = ctx.n(25, 300)
     for _ in range(n_impl):
         judge(ctx, gen_case(ctx, "implicit"), items, "implicit")
+    n_dang = ctx.n(45, 500)
+    for _ in range(n_dang):
+        judge(ctx, gen_case(ctx, "dangling"), items, "dangling")
     ctx.obligation("oracle:checkout", not any(v.kind == "oracle" for v in ctx.violations),
                    f"{len(items)} compare+apply+compare runs judged: walk equals target, second compare empty, "
                    "nothing outside the target removed without delete, unavailable sources reported")
